@@ -479,6 +479,27 @@ def run(chk):
                     bad.append("extension:" + label)
             for b_ in bad:
                 chk.violation("api:" + b_, dict(kind="api-constraint", what=b_, scene=sd, aircraft=ac, state=st, two_aircraft=two))
+        # deflection distribution that does not span the flap (wing_segment.py 1355-1362)
+        for it in range(chk.q(4, 20)):
+            rs, ts = round(rng.uniform(0.1, 0.4), 2), round(rng.uniform(0.7, 1.0), 2)
+            ac = gen.simple_wing_aircraft(N=5, reid=rng.random() < 0.5)
+            ac["wings"]["main_wing"]["control_surface"].update(root_span=rs, tip_span=ts)
+            ends = rng.choice([(0.0, ts), (rs, 1.1), (0.0, 1.0), (round(rs + 0.05, 2), ts), (rs, round(ts - 0.05, 2))])
+            for (a_, b_), must_raise in ((ends, True), ((rs, ts), False)):
+                cs_ = {"aileron": [[a_, 2.0], [b_, -1.0]]}
+                try:
+                    sc = gen.build_scene(MX, {"units": "English", "scene": {"atmosphere": {"rho": 0.0023769}}}, [("a", ac, {"velocity": 100.0, "alpha": 2.0}, cs_)])
+                    sc.solve_forces()
+                    raised = False
+                except Exception as e:
+                    raised = True
+                chk.case(dict(kind="deflection-ends", ends=[a_, b_], flap=[rs, ts]), nontrivial=True)
+                if must_raise and not raised:
+                    chk.violation("api:deflection-distribution-ends", dict(kind="api-constraint", what="deflection distribution not spanning the flap was accepted",
+                                                                           aircraft=ac, controls=cs_))
+                if raised and not must_raise:
+                    chk.violation("api:deflection-distribution-valid-rejected", dict(kind="api-constraint", what="valid deflection distribution rejected",
+                                                                                     aircraft=ac, controls=cs_), no_input=True)
         # empty scene
         for label in ("solve_forces", "distributions", "pitch_trim", "pitch_trim_using_orientation", "target_CL"):
             sc = MX.Scene({"units": "English", "scene": {"atmosphere": {"rho": 0.0023769}}})
